@@ -85,6 +85,9 @@ def parseOp : List String → Option Op
   | ["oktapoll", c] => do pure (.oktaPoll (← pCookie c))
   | ["tick"] => some .tick
   | ["sweep"] => some .sweep
+  | ["totpenrol", c] => do pure (.totpEnrol (← pCookie c))
+  | ["totprename", c, u] => do pure (.totpRename (← pCookie c) (← pNat u))
+  | ["hwrename", c, u] => do pure (.hwRename (← pCookie c) (← pNat u))
   | ["fault", sv, ld] => do pure (.fault (← parseBool sv) (← parseBool ld))
   | _ => none
 
@@ -96,7 +99,10 @@ def parseReset : List String → Option State
     let b0 ← pNat b0
     let f1 ← pNat f1
     let b1 ← pNat b1
-    let okta ← if mode == "okta" then some true else if mode == "htp" then some false else none
+    -- a trailing "@" selects user names that share their local part ("alice", "alice@partner.example"):
+    -- a naming of the world on which no decision of the model depends
+    let okta ← if mode == "okta" || mode == "okta@" then some true
+               else if mode == "htp" || mode == "htp@" then some false else none
     pure (init t0 okta fun u => if u = 0 then cfgOfFlags f0 b0 else if u = 1 then cfgOfFlags f1 b1 else ⟨false, false, false, 0⟩)
   | _ => none
 
@@ -135,7 +141,7 @@ def digest (s : State) : String :=
     let p := s.prof u
     let ch := optStr (fun (c : Chal) => s!"{c.id}/{boolStr c.hasWA}/{rel c.issuedAt}") (s.chal u)
     let lt := if p.lastTotp = 0 then "never" else rel p.lastTotp
-    s!"[{ch} lt={lt} b={optStr rel p.boot} o={boolStr (s.oktaSess u)}{boolStr (s.oktaPushed u)}{boolStr (s.oktaApproved u)}]"
+    s!"[{ch} lt={lt} b={optStr rel p.boot} x={boolStr p.extraTotp} o={boolStr (s.oktaSess u)}{boolStr (s.oktaPushed u)}{boolStr (s.oktaApproved u)}]"
   s!"t={rel s.now} f={boolStr s.saveFails}{boolStr s.loadFails} ck={ck} tk={tk} push={push} svc={svc} nc={s.nextChal} {usr}"
 
 /-! ### model mode -/
